@@ -12,9 +12,18 @@
    (round4_spec: at most 3 units in the last place, exponent and sign kept) otherwise, and in low
    resolution the nearest multiple of 1/64 — exactly.
 
-   transcode (the converse) is stated and proved in the second half below.  *)
+   The converse: decoded_is_wellformed — every byte string (bytes in 0..255) the decoder accepts yields a Reset
+   with a valid viewBox and a premultiplied palette followed by calls obeying the styling/drawing protocol
+   with in-range adjustments and 32-bit float patterns; transcode — feeding exactly those calls to ANY Encoder
+   succeeds and the re-encoded stream decodes to the same calls in their written-and-read-back form (the
+   transcoding Encoder is in low resolution, so coordinates in [-128,128) go to the nearest 1/64);
+   decoded_coordinates_stable — a decoded coordinate is a fixed point of write-and-read-back up to the sign
+   of zero, so transcoding again changes nothing more.
+   Residual hypothesis of encode_decode: the viewBox must be valid as written (viewbox_invalid (qvb vb) = false);
+   that a valid viewBox stays valid under the 4-byte rounding (monotonicity of the rounding) is proved only for
+   viewBoxes that come out of the decoder (qvb_valid), not for arbitrary float viewBoxes. *)
 From Coq Require Import ZArith Bool List.
-From IVG Require Import SF NumCodec Color Calls Decoder Encoder NumBase NumProofs ColorProofs DecProofs EncProofs RoundTrip MetaRT.
+From IVG Require Import SF NumCodec Color Calls Decoder Encoder NumBase NumProofs ColorProofs DecProofs EncProofs RoundTrip MetaRT Transcode.
 Import ListNotations.
 Local Open Scope Z_scope.
 
@@ -52,6 +61,27 @@ Theorem palette_chunk_roundtrip : forall pal rest, wf_pal pal -> (1 <= explicit_
 Proof. exact MetaRT.palette_chunk_decode. Qed.
 Print Assumptions palette_chunk_roundtrip.
 
+Theorem decoded_is_wellformed : forall b cs, wf_bytes b -> decode_calls [] b = (cs, Done) ->
+  exists vb pal body, cs = CReset vb pal :: body /\
+    wf_vb vb /\ viewbox_invalid vb = false /\ viewbox_invalid (qvb vb) = false /\ wf_pal pal /\ wf_calls false body.
+Proof. exact Transcode.decoded_is_wellformed. Qed.
+Print Assumptions decoded_is_wellformed.
+
+Theorem transcode : forall b cs e0, wf_bytes b -> decode_calls [] b = (cs, Done) ->
+  exists vb pal body b', cs = CReset vb pal :: body /\
+    snd (enc_bytes (fst (enc_run e0 (map ACall cs)))) = BytesOk b' /\
+    decode_calls [] b' = (CReset (m_vb (meta_of vb pal)) pal :: expect false false (map ACall body), Done).
+Proof. exact Transcode.transcode. Qed.
+Print Assumptions transcode.
+
+Theorem decoded_coordinates_stable : forall g, coord_img g -> wf_f32 g /\ same_val (q_coord g) g.
+Proof. exact Transcode.q_coord_img. Qed.
+Print Assumptions decoded_coordinates_stable.
+
+Theorem qvb_valid : forall v, vb_img v -> viewbox_invalid v = false -> wf_vb v /\ viewbox_invalid (qvb v) = false.
+Proof. exact Transcode.qvb_valid. Qed.
+Print Assumptions qvb_valid.
+
 (* non-vacuity: a program with a 40-fold line run (crosses the 32 limit), an arc run, H/V, a close-and-move
    and hi-res switched on for the second path meets the hypotheses *)
 Definition f (z : Z) : f32 := of_Z F32 z.
@@ -81,3 +111,7 @@ Proof.
   all: try (unfold adj_ok; split; [vm_compute; intuition congruence|intros; try discriminate; reflexivity]).
   all: unfold wf_rgba, wf_chan; vm_compute; intuition congruence.
 Qed.
+
+(* non-vacuity of the converse: the bytes of a real stream (magic, no metadata, one path) are accepted *)
+Example ex_accepts : snd (decode_calls [] [137; 73; 86; 71; 0; 192; 128; 128; 0; 130; 130; 225]) = Done.
+Proof. vm_compute. reflexivity. Qed.
